@@ -1,4 +1,4 @@
-import SqlgrepModel.Lemmas.AggSpecFacts
+import SqlgrepModel.Lemmas.AggTotal
 /-
 C04 — GROUP BY: one row per group, every aggregate computed from that group's rows.
 
@@ -165,22 +165,33 @@ theorem publish_cellwise {st : AggState} (hs : AggSorted st) (hinner : ∀ g ∈
 
 /-! ### 5. refinement for a whole input -/
 
-/- Full statement (`agg_refines_spec`):
-     table O q envs = some t → deviationClass O q envs = "" →
-       (aggRun O q envs {}).bind (fun st => finalResult O q { agg := st }) = .ok ⟨names, t⟩
-   i.e. including "the run does not fail when the specification fixes the outcome". Proved below in
-   partial-correctness form: the hypothesis `hrun` (no `execute_update` failed) is additional. What is missing is the
-   induction showing that `aggregate k vs = some _` for the complete group implies that every prefix fold succeeds
-   (each per-aggregate lemma already gives success of the complete fold). -/
+/-- **`agg_refines_spec`.** For every aggregate statement (any mix and order of aggregates and key expressions, with or
+without GROUP BY, WHERE, HAVING incl. hidden aggregates, transforms, DISTINCT, LIMIT) and every list of rows: if the
+specification fixes the table `t` and the input is outside the two known deviation classes (D10, D15), then feeding
+the rows to `execute_update` one after the other succeeds, and `execute_result` + LIMIT shows exactly `t`:
+one row per distinct key in ascending order with NULL first, every cell computed from exactly the rows of its group,
+HAVING on the group's own key and aggregates, no group dropped or duplicated. -/
+theorem agg_refines_spec {O : Oracles} {q : AggStmt} (hwf : StmtWF q) (envs : List Env) {t : List (List Value)}
+    (hspec : table O q envs = some t) (hclass : deviationClass O q envs = "") :
+    (aggRun O q envs {}).bind (fun st => finalResult O q { agg := st }) = .ok { columns := q.items.map (·.name), rows := t } :=
+  engine_refines_spec_total hwf envs hspec hclass
 
-/-- **`agg_refines_spec` (partial-correctness form).** For every statement, every list of rows fed to the engine
-(any history), if no update failed then the table shown by `execute_result` + LIMIT is the specification's table of
-those rows, whenever the specification fixes the outcome and the input is outside the known deviation classes. -/
-theorem agg_refines_spec_partial {O : Oracles} {q : AggStmt} (hwf : StmtWF q) (envs : List Env) {st : AggState}
+/-- the same in partial-correctness form: any state reached by a run that did not fail shows the specification's table -/
+theorem agg_refines_spec_of_run {O : Oracles} {q : AggStmt} (hwf : StmtWF q) (envs : List Env) {st : AggState}
     (hrun : aggRun O q envs {} = .ok st) {t : List (List Value)} (hspec : table O q envs = some t)
     (hclass : deviationClass O q envs = "") :
     finalResult O q { agg := st } = .ok { columns := q.items.map (·.name), rows := t } :=
   engine_refines_spec hwf envs hrun hspec hclass
+
+/-- totality of the update half on its own: when every complete per-group fold succeeds (which the specification's
+answer implies), no `execute_update` fails — in particular no aggregate reports an overflow or a type error halfway -/
+theorem updates_do_not_fail {O : Oracles} {q : AggStmt} (hwf : StmtWF q) (envs : List Env) {t : List (List Value)}
+    (hspec : table O q envs = some t) (hclass : deviationClass O q envs = "") : ∃ st, aggRun O q envs {} = .ok st := by
+  cases hr : keyedRows O q envs with
+  | none => simp [table, hr] at hspec
+  | some rows =>
+    obtain ⟨hfolds, hkeys⟩ := foldsOk_of_spec hwf hr hspec hclass
+    exact aggRun_progress envs (coupled_init O q) hr (by simpa using hfolds) hkeys
 
 /-! ### non-vacuity -/
 
@@ -190,12 +201,12 @@ def exCount : AggStmt :=
     having := none, havingAggs := [], havingKeys := [], havingVisit := [], limit := none, distinct := false }
 
 example : StmtWF exCount := ⟨rfl, fun _ => rfl⟩
-/-- the hypotheses of `agg_refines_spec_partial` hold on a two-row input, and the conclusion is the one-row table `2` -/
+/-- the hypotheses of `agg_refines_spec` hold on a two-row input, and the conclusion is the one-row table `2` -/
 example : ∃ st, aggRun {} exCount [{}, {}] {} = .ok st ∧ table {} exCount [{}, {}] = some [[.int 2]] ∧
     deviationClass {} exCount [{}, {}] = "" ∧
     finalResult {} exCount { agg := st } = .ok { columns := ["count0"], rows := [[.int 2]] } := by
   refine ⟨_, rfl, rfl, rfl, ?_⟩
-  exact agg_refines_spec_partial ⟨rfl, fun _ => rfl⟩ [{}, {}] rfl rfl rfl
+  exact agg_refines_spec_of_run ⟨rfl, fun _ => rfl⟩ [{}, {}] rfl rfl rfl
 /-- a non-trivial MIN: the least of 3, 1, 2 -/
 example : aggregate (.min (.column "v")) [.int 3, .null, .int 1, .int 2] = some (.int 1) := rfl
 /-- a sum whose partial sums stay in range -/
